@@ -1030,6 +1030,25 @@ class Interp:
         else:
             raise Unsupported(f"CALL_INTRINSIC_1 {arg}")
 
+    def op_IMPORT_NAME(self, W, F, arg, argval):
+        fromlist = F.stack.pop()
+        level = F.stack.pop()
+        try:
+            mod = __import__(argval, F.g.d, None, fromlist, level)
+        except ImportError as e:
+            raise PyRaise(e)
+        F.stack.append(mod)
+
+    def op_IMPORT_FROM(self, W, F, arg, argval):
+        mod = F.stack[-1]
+        try:
+            F.stack.append(getattr(mod, argval))
+        except AttributeError:
+            pyraise(ImportError, f"cannot import name {argval}")
+
+    def op_STORE_GLOBAL(self, W, F, arg, argval):
+        raise Unsupported("assignment to a module global inside interpreted code")
+
     # ------------------------------------------------------------------ calls
     def op_KW_NAMES(self, W, F, arg, argval):
         F.kwnames = argval
